@@ -75,6 +75,21 @@ type mon struct {
 	mixedSeen  map[byte]int64 // decoded-copy law on containers mixing payloads of this type
 	held       []held         // (value, decoded copy) pairs of the running case, looked at again at its end
 	ctorTypes  map[byte]int64 // histories in which two live values of this type were built with different payloads
+	sameObj    map[string]int64 // x.Equals(x) / x.CompareTo(x) per container type and size class
+	minimal    map[string]int64 // decoded-copy law on containers of minimal-size elements, per class
+	shared     map[string]int64 // comparisons of values whose payload slices share a backing array, per type and kind
+}
+
+func sizeClass(n int) string {
+	switch {
+	case n < 2:
+		return "0-1"
+	case n == 2:
+		return "2"
+	case n <= 5:
+		return "3-5"
+	}
+	return "6+"
 }
 
 func (m *mon) cell(t string) {
@@ -86,11 +101,11 @@ func (m *mon) cell(t string) {
 
 // eq / cmp run one call of the code under test, recovering a panic.
 func eq(a, b value.Value) (res bool, p interface{}) {
-	p = vlib.Catch(func() { res = a.Equals(b) })
+	p = grd.run("Equals", a, b, func() { res = a.Equals(b) })
 	return
 }
 func cmp(a, b value.Value) (res int, p interface{}) {
-	p = vlib.Catch(func() { res = a.CompareTo(b) })
+	p = grd.run("CompareTo", a, b, func() { res = a.CompareTo(b) })
 	return
 }
 
@@ -131,9 +146,13 @@ func (m *mon) detail(recipe string, a, b item, extra map[string]interface{}) map
 func (m *mon) selfLaws(recipe string, a item) {
 	c := m.c
 	sh, t := classSelf(a.s, false)
+	if isContainer(a.s.code) {
+		m.sameObj[tn(a.s)+"/"+sizeClass(len(a.s.items))]++
+	}
 	e, p := eq(a.v, a.v)
 	c.Count("calls_Equals", 1)
-	if p != nil {
+	if isSkipped(p) {
+	} else if p != nil {
 		c.Fail("totality-Equals/"+t+"/"+sh, fmt.Sprintf("v.Equals(v) panicked: %v; v=%s", p, renderShort(a.s)), m.detail(recipe, a, a, map[string]interface{}{"panic": fmt.Sprint(p)}))
 	} else if !e {
 		c.Fail("Equals-reflexive/"+t+"/"+sh, "v.Equals(v) is false; v="+renderShort(a.s), m.detail(recipe, a, a, nil))
@@ -141,7 +160,8 @@ func (m *mon) selfLaws(recipe string, a item) {
 	c.Count("law_Equals_reflexive", 1)
 	r, p := cmp(a.v, a.v)
 	c.Count("calls_CompareTo", 1)
-	if p != nil {
+	if isSkipped(p) {
+	} else if p != nil {
 		c.Fail("totality-CompareTo/"+t+"/"+sh, fmt.Sprintf("v.CompareTo(v) panicked: %v; v=%s", p, renderShort(a.s)), m.detail(recipe, a, a, map[string]interface{}{"panic": fmt.Sprint(p)}))
 	} else {
 		if r != 0 {
@@ -155,17 +175,33 @@ func (m *mon) selfLaws(recipe string, a item) {
 	compared()
 
 	// the decoded copy, through golib's own WriteValue / ReadValue
-	var d value.Value
+	if d, wire, ok := m.decodedCopy(recipe, a); ok {
+		m.judgeDecoded(recipe, a, d.v, wire)
+	}
+}
+
+// decodedCopy: "the result of decoding its encoding", through golib's own WriteValue and
+// ReadValue. An encoder that fails is C02's subject and only counted. A value whose OWN encoding
+// (all of the input, the value is the last thing in it) cannot be decoded has no decoded copy
+// to be equal to: that is a failure of the decoded-copy law, keyed with the suffix
+// :own-encoding-not-decodable.
+func (m *mon) decodedCopy(recipe string, a item) (item, []byte, bool) {
+	c := m.c
 	wire, p := encodeCatch(a.v)
-	if p == nil {
-		d, p = decodeWatched(a.s, wire)
+	if p != nil {
+		c.Count("encoder_failed_not_judged_here", 1)
+		return item{}, nil, false
 	}
+	d, p := decodeWatched(a.s, wire)
+	c.Count("own_encodings_decoded", 1)
 	if p != nil || d == nil {
-		// the codec itself is the subject of C02/C04, not of this property
-		c.Count("codec_failed_not_judged_here", 1)
-		return
+		sh, t := classSelf(a.s, true)
+		c.Fail("Equals-decoded-copy/"+t+"/"+sh+":own-encoding-not-decodable",
+			fmt.Sprintf("ReadValue(WriteValue(v)) fails (%v): v has no decoded copy to be equal to; v=%s", p, renderShort(a.s)),
+			m.detail(recipe, a, a, map[string]interface{}{"wire_hex": vlib.Hex(wire), "ReadValue_panic": fmt.Sprint(p), "calls_of_the_case_so_far": led.opLog()}))
+		return item{}, wire, false
 	}
-	m.judgeDecoded(recipe, a, d, wire)
+	return item{s: asDecoded(a.s), v: d}, wire, true
 }
 
 // judgeDecoded: the decoded-copy law on a value and the result d of decoding its encoding
@@ -199,6 +235,7 @@ func (m *mon) judgeDecoded(recipe string, a item, d value.Value, wire []byte) (e
 		return m.detail(recipe, a, item{s: asDecoded(a.s), v: d}, ex)
 	}
 	switch {
+	case isSkipped(p1) || isSkipped(p2):
 	case p1 != nil || p2 != nil:
 		c.Fail("totality-Equals/"+dt+"/"+dsh, fmt.Sprintf("Equals between v and its decoded copy panicked: %v %v; v=%s", p1, p2, renderShort(a.s)), det())
 	case !e1:
@@ -249,16 +286,16 @@ func (m *mon) pairLaws(recipe string, a, b item) {
 	w := func() string { return "a=" + renderShort(a.s) + " b=" + renderShort(b.s) }
 
 	// totality
-	if pe1 != nil {
+	if pe1 != nil && !isSkipped(pe1) {
 		c.Fail("totality-Equals/"+tAB+"/"+sh, fmt.Sprintf("a.Equals(b) panicked: %v; %s", pe1, w()), m.detail(recipe, a, b, res))
 	}
-	if pe2 != nil {
+	if pe2 != nil && !isSkipped(pe2) {
 		c.Fail("totality-Equals/"+tBA+"/"+sh, fmt.Sprintf("b.Equals(a) panicked: %v; %s", pe2, w()), m.detail(recipe, a, b, res))
 	}
-	if pc1 != nil {
+	if pc1 != nil && !isSkipped(pc1) {
 		c.Fail("totality-CompareTo/"+tAB+"/"+sh, fmt.Sprintf("a.CompareTo(b) panicked: %v; %s", pc1, w()), m.detail(recipe, a, b, res))
 	}
-	if pc2 != nil {
+	if pc2 != nil && !isSkipped(pc2) {
 		c.Fail("totality-CompareTo/"+tBA+"/"+sh, fmt.Sprintf("b.CompareTo(a) panicked: %v; %s", pc2, w()), m.detail(recipe, a, b, res))
 	}
 	c.Count("law_totality", 4)
@@ -345,11 +382,11 @@ func (m *mon) tripleLaws(recipe string, x [3]item) {
 			r[i][j], pc[i][j] = cmp(x[i].v, x[j].v)
 			sh[i][j], ty[i][j] = classPair(x[i].s, x[j].s)
 			m.cell(pairTypes(x[i].s, x[j].s))
-			if pe[i][j] != nil {
+			if pe[i][j] != nil && !isSkipped(pe[i][j]) {
 				c.Fail("totality-Equals/"+ty[i][j]+"/"+sh[i][j], fmt.Sprintf("a.Equals(b) panicked: %v; a=%s b=%s", pe[i][j], renderShort(x[i].s), renderShort(x[j].s)),
 					m.detail(recipe, x[i], x[j], map[string]interface{}{"panic": fmt.Sprint(pe[i][j])}))
 			}
-			if pc[i][j] != nil {
+			if pc[i][j] != nil && !isSkipped(pc[i][j]) {
 				c.Fail("totality-CompareTo/"+ty[i][j]+"/"+sh[i][j], fmt.Sprintf("a.CompareTo(b) panicked: %v; a=%s b=%s", pc[i][j], renderShort(x[i].s), renderShort(x[j].s)),
 					m.detail(recipe, x[i], x[j], map[string]interface{}{"panic": fmt.Sprint(pc[i][j])}))
 			}
@@ -415,21 +452,16 @@ func (m *mon) tripleLaws(recipe string, x [3]item) {
 
 // decodedItem is the real decoded copy of a (nil when golib's codec fails on it).
 func decodedItem(a item) (item, bool) {
-	wire, p := encodeCatch(a.v)
-	if p != nil {
-		return item{}, false
-	}
-	d, p := decodeWatched(a.s, wire)
-	if p != nil || d == nil {
-		return item{}, false
-	}
-	return item{s: asDecoded(a.s), v: d}, true
+	d, _, ok := led.m.decodedCopy("decoded", a)
+	return d, ok
 }
 
 func main() {
 	c := vlib.Start("C20")
-	m := &mon{c: c, cells: map[string]struct{}{}, noiseTypes: map[byte]int64{}, mixedSeen: map[byte]int64{}, ctorTypes: map[byte]int64{}}
+	m := &mon{c: c, cells: map[string]struct{}{}, noiseTypes: map[byte]int64{}, mixedSeen: map[byte]int64{}, ctorTypes: map[byte]int64{},
+		sameObj: map[string]int64{}, minimal: map[string]int64{}, shared: map[string]int64{}}
 	led = &ledger{m: m, byPtr: map[value.Value]int{}, noRing: c.Only != ""}
+	grd = newGuard(m)
 
 	// wrap: every case runs inside the ledger of live values. nz is the stream of the case's
 	// unrelated calls (derived from the case id, so a replay makes the same ones).
@@ -439,7 +471,26 @@ func main() {
 			led.begin(id)
 			m.held = m.held[:0]
 			nz := c.Rand("noise/" + id)
-			fn(i, r, nz)
+			aborted := false
+			func() {
+				defer func() {
+					if x := recover(); x != nil {
+						if _, ok := x.(abortCase); !ok {
+							panic(x)
+						}
+						aborted = true
+					}
+				}()
+				fn(i, r, nz)
+			}()
+			if aborted {
+				// a call of this case was abandoned (guard.go): its goroutine still works on the
+				// operands, so the values of the case are not looked at again
+				led.abandon()
+				m.held = m.held[:0]
+				c.Count("cases_given_up_after_abandoned_call", 1)
+				return
+			}
 			led.verify(shAfterCmp, true, func() string { return "the Equals/CompareTo calls of the case" })
 			m.recheckHeld(m.held)
 			led.end(nz)
@@ -472,7 +523,14 @@ func main() {
 	nPairsCells := nCodes * nCodes
 	const block = 16 // 16 consecutive case indices share the matrix cell / recipe (one per shard with 16 shards)
 
+	// a third of the cases lay their slice payloads out on shared backing arrays (alias.go)
+	alias := func(nz *vlib.Rand, specs ...*spec) {
+		if nz.Chance(1, 3) {
+			m.aliasPass(nz, specs...)
+		}
+	}
 	pairCase := func(recipe string, sa, sb *spec, nz *vlib.Rand) {
+		alias(nz, sa, sb)
 		a, b := mk(sa), mk(sb)
 		between(nz, sa)
 		m.selfLaws(recipe, a)
@@ -506,13 +564,51 @@ func main() {
 	}))
 
 	// (2) the targeted shapes of the property
-	shapeNames := []string{"map-keys", "map-order", "list-types", "nil-empty", "sum-count", "decoded", "near", "nested", "NaN", "wide", "mixed-container"}
+	shapeNames := []string{"map-keys", "map-order", "list-types", "nil-empty", "sum-count", "decoded", "near", "nested", "NaN", "wide", "mixed-container", "minimal-elements", "shared-backing"}
 	c.Cases("shapes", c.N(76000, 1900000), wrap("shapes", func(i int, r, nz *vlib.Rand) {
 		g := &gen{r: r}
-		k := (i / block) % 45
+		k := (i / block) % 51
 		var name string
 		var sa, sb *spec
 		switch {
+		case k >= 48:
+			// payload slices that are windows of one backing array: every pair and triple law,
+			// and the separately stored twin (the decoded copy) in place of the first value
+			name = shapeNames[12]
+			g.nilOK = false
+			s3 := g.shapeShared(m)
+			var x [3]item
+			for j := range s3 {
+				x[j] = mk(s3[j])
+			}
+			between(nz, s3[0])
+			m.selfLaws(name, x[0])
+			m.pairLaws(name, x[0], x[1])
+			m.tripleLaws(name, x)
+			if d, ok := decodedItem(x[0]); ok {
+				m.tripleLaws(name, [3]item{x[0], d, x[1]})
+			}
+			if d, ok := decodedItem(x[1]); ok {
+				m.tripleLaws(name, [3]item{x[0], x[1], d})
+			}
+			c.Count("pairs", 1)
+			c.Count("recipe_"+name, 1)
+			c.Distinct(vlib.HashStr("shared|" + render(s3[0]) + "|" + render(s3[1]) + "|" + render(s3[2])))
+			return
+		case k >= 45:
+			// containers of minimal-size elements, encoded alone (the run of one-byte elements is
+			// the last thing in the input): the decoded-copy law on both, then the pair laws
+			name = shapeNames[11]
+			sa, sb = g.shapeMinimal(m)
+			a, b := mk(sa), mk(sb)
+			between(nz, sa)
+			m.selfLaws(name, a)
+			m.selfLaws(name, b)
+			m.pairLaws(name, a, b)
+			c.Count("pairs", 1)
+			c.Count("recipe_"+name, 1)
+			c.Distinct(vlib.HashStr(render(sa) + "|" + render(sb)))
+			return
 		case k < 5:
 			name = shapeNames[0]
 			sa, sb = g.shapeMapKeys()
@@ -770,6 +866,7 @@ func main() {
 		}
 		if !have {
 			r.Shuffle(3, func(p, q int) { s[p], s[q] = s[q], s[p] })
+			alias(nz, s[:]...)
 			for j := range s {
 				x[j] = mk(s[j])
 			}
@@ -822,6 +919,7 @@ func main() {
 			}
 		}
 		var x [3]item
+		alias(nz, s[:]...)
 		for j := range s {
 			x[j] = mk(s[j])
 			if j < 2 && nz.Chance(1, 3) {
@@ -901,6 +999,12 @@ func main() {
 		c.Floor("noise_decodes_least_covered_type", nh/400/sh, minOf(m.noiseTypes, allCodes))
 		c.Floor("decoded_copy_mixed_container_least_covered_type", int64(c.N(300000, 7000000))/8000/sh, minOf(m.mixedSeen, allCodes[1:]))
 		c.Floor("ctor_same_type_different_payloads_least_covered_type", nh/300/sh, minOf(m.ctorTypes, allCodes[1:]))
+		for k, v := range m.sameObj {
+			c.Count("same_object_compared_"+k, v)
+		}
+		for k, v := range m.shared {
+			c.Count("shared_backing_array_"+k, v)
+		}
 		c.Floor("decoded_copy_mixed_container_bools", int64(c.N(300000, 7000000))/2000/sh, m.mixedSeen[cBool])
 	}
 	c.Finish()
